@@ -183,6 +183,7 @@ pub broadcast proof fn lemma_count_one_more<'a>(a: Seq<Seq<Node<'a>>>, b: Seq<Se
 
 pub broadcast group group_stack {
     lemma_count_has,
+    lemma_count_to_has,
     lemma_count_one_more,
     lemma_new_from_open,
     lemma_guarded_body,
@@ -251,6 +252,87 @@ pub proof fn lemma_count_push(s: Seq<Status>, y: Status, x: Status)
     ensures count(s.push(y), x) == count(s, x) + if y == x { 1nat } else { 0nat }
 {
     assert(s.push(y).drop_last() =~= s);
+}
+
+// ---------------------------------------------------------------------------------------------
+// clause level (C01, C03)
+// ---------------------------------------------------------------------------------------------
+
+// effective polarity: operator-level `not` XOR prefix `not`
+pub open spec fn pol(op_not: bool, prefix_not: bool) -> bool { op_not != prefix_not }
+
+pub open spec fn spec_is_unary(op: CmpOperator) -> bool {
+    op == CmpOperator::Exists || op == CmpOperator::Empty || op == CmpOperator::IsString || op == CmpOperator::IsList
+        || op == CmpOperator::IsMap || op == CmpOperator::IsBool || op == CmpOperator::IsInt || op == CmpOperator::IsFloat
+        || op == CmpOperator::IsNull
+}
+
+// abstract view of what the per-value layer hands to the clause aggregation
+pub ghost enum EvalRes {
+    Empty(Status),
+    Values(Seq<Status>),
+}
+
+pub open spec fn er_view(r: EvaluationResult) -> EvalRes {
+    match r {
+        EvaluationResult::EmptyQueryResult(s) => EvalRes::Empty(s),
+        EvaluationResult::QueryValueResult(v) => EvalRes::Values(er_statuses(v@)),
+    }
+}
+
+pub open spec fn er_wf(r: EvalRes) -> bool {
+    match r {
+        EvalRes::Empty(s) => true,
+        EvalRes::Values(v) => v.len() < 0x7fff_ffff && forall|i: int| 0 <= i < v.len() ==> v[i] != Status::SKIP,
+    }
+}
+
+// The per-value results of `lhs <op> [rhs]` as a function of the selected values, the operator and ONE polarity bit.
+// Uninterpreted: the clause-level contract only says which polarity bit reaches this layer (C03); what the layer
+// computes for given values is the business of the unary/binary units.
+pub uninterp spec fn un_sem(q: Seq<QueryPart>, lhs: Seq<QueryResult>, op: CmpOperator, negated: bool) -> EvalRes;
+pub uninterp spec fn bin_sem(lhs: Seq<QueryResult>, rhs: Seq<QueryResult>, op: CmpOperator, negated: bool) -> EvalRes;
+
+// "all: FAIL iff some value fails, else PASS; some: PASS iff some value passes, else FAIL; an empty (filtered)
+// selection makes the clause SKIP" -- the Empty case carries the status decided by the per-value layer
+pub open spec fn er_statuses(v: Seq<(QueryResult, Status)>) -> Seq<Status> {
+    Seq::new(v.len(), |i: int| v[i].1)
+}
+
+pub open spec fn count_to(s: Seq<Status>, n: int, x: Status) -> nat
+    decreases n
+{
+    if n <= 0 { 0 } else { count_to(s, n - 1, x) + if s[n - 1] == x { 1nat } else { 0nat } }
+}
+
+pub broadcast proof fn lemma_count_to_has(s: Seq<Status>, n: int, x: Status)
+    requires 0 <= n <= s.len(),
+    ensures
+        #[trigger] count_to(s, n, x) > 0 <==> exists|i: int| 0 <= i < n && s[i] == x,
+        count_to(s, n, x) <= n,
+    decreases n
+{
+    if n > 0 {
+        lemma_count_to_has(s, n - 1, x);
+        if exists|i: int| 0 <= i < n - 1 && s[i] == x {
+            let i = choose|i: int| 0 <= i < n - 1 && s[i] == x;
+            assert(0 <= i < n && s[i] == x);
+        }
+        if s[n - 1] == x { assert(0 <= n - 1 < n && s[n - 1] == x); }
+        if exists|i: int| 0 <= i < n && s[i] == x {
+            let i = choose|i: int| 0 <= i < n && s[i] == x;
+            if i < n - 1 { assert(0 <= i < n - 1 && s[i] == x); }
+        }
+    }
+}
+
+pub open spec fn clause_agg(all: bool, r: EvalRes) -> Status {
+    match r {
+        EvalRes::Empty(s) => s,
+        EvalRes::Values(v) =>
+            if all { if has(v, Status::FAIL) { Status::FAIL } else { Status::PASS } }
+            else { if has(v, Status::PASS) { Status::PASS } else { Status::FAIL } },
+    }
 }
 } // mod model
 pub use model::*;
